@@ -58,6 +58,11 @@ let obs_saveproj img =
 
 let eval fn args : string option =
   table_miss := false; ucs_inexact := false;
+  match fn, args with
+  | "guidstr", [g] -> Some ("ok " ^ hex_of_bytes (guid_string (bytes_of_hex g)))
+  | "guidparse", [t] ->
+    Some (match guid_parse (bytes_of_hex t) with Some g -> "ok " ^ hex_of_bytes g | None -> "err")
+  | _ ->
   match args with
   | img :: _ when has_flash_sig img -> None
   | _ ->
